@@ -29,7 +29,8 @@ ASSUMPTIONS = ['outcomes compare only the payload tag or the exception class',
                'permutations are exhaustive per layer up to 4 candidates; products over 2 layers are capped at 60']
 REQUIRED = {'families': 200, 'resolutions': 5000, 'reach._is_specialization_of': 2000, 'reach.choose_overload': 5000,
             'shape.specific+two-incomparable': 20, 'shape.mixed-no_kwargs': 20, 'shape.mixed-laziness': 10,
-            'fresh.processes': 2}
+            'fresh.processes': 2, 'history.families': 100, 'history.multi_context_orders': 200, 'history.interleaved_lookups': 100,
+            'history.with_exclusive_registration': 30}
 
 
 def gen_family(rng, shape=None):
@@ -214,6 +215,82 @@ def check_family(mon, layers, call, shape, rec, label):
     return outs
 
 
+def check_history(mon, layers, call, shape, rec, label):
+    """the same layers of overloads assembled along different histories: registered at creation (baseline),
+    registered late and in any order into an already existing chain - with look-ups through an already existing
+    descendant in between -, and with every layer split over the members of a multi-context in every member order"""
+    from yaql.language import contexts as yctx
+    rng = mon['rng']
+    text, vars_ = render_call(call)
+    try:
+        st = mon['eng'](text)
+    except Exception as e:
+        rec.inconc('call text %r does not parse: %s' % (text, e))
+        return
+    # some registrations are exclusive (the layer then hides the layers behind it)
+    excl = {id(o): (rng.random() < 0.15) for layer in layers for o in layer}
+    parent = mon['root']
+    for layer in reversed(layers):
+        ctx = yctx.Context(parent)
+        for o in layer:
+            ctx.register_function(o.build(), exclusive=excl[id(o)])
+        parent = ctx
+    base = outcome(st, parent, vars_)
+    if any(excl.values()):
+        rec.count('history.with_exclusive_registration')
+    variants = {}
+    # late registration with interleaved look-ups
+    ctxs = []
+    parent = mon['root']
+    for layer in reversed(layers):
+        ctx = yctx.Context(parent)
+        ctxs.insert(0, ctx)
+        parent = ctx
+    leaf = ctxs[0].create_child_context().create_child_context()
+    outcome(st, leaf, vars_)
+    jobs = [(li, o) for li, layer in enumerate(layers) for o in layer]
+    rng.shuffle(jobs)
+    for li, o in jobs:
+        ctxs[li].register_function(o.build(), exclusive=excl[id(o)])
+        if rng.random() < 0.6:
+            outcome(st, leaf, vars_)
+            rec.count('history.interleaved_lookups')
+    variants['late-registration:old-descendant'] = outcome(st, leaf, vars_)
+    variants['late-registration:new-descendant'] = outcome(st, ctxs[0], vars_)
+    # every layer as a multi-context, members in every order
+    splits = []
+    for layer in layers:
+        k = min(rng.choice((2, 2, 3)), max(len(layer), 1))
+        splits.append([rng.randrange(k) for _ in layer] + [k])
+    orders = [list(itertools.permutations(range(sp[-1]))) for sp in splits]
+    combos = list(itertools.product(*orders))
+    if len(combos) > 12:
+        combos = rng.sample(combos, 12)
+    for combo in combos:
+        parent = mon['root']
+        for layer, sp, order in zip(reversed(layers), reversed(splits), reversed(combo)):
+            k = sp[-1]
+            members = [yctx.Context(parent if m == 0 else None) for m in range(k)]
+            for o, m in zip(layer, sp):
+                members[m].register_function(o.build(), exclusive=excl[id(o)])
+            parent = yctx.MultiContext([members[m] for m in order])
+        variants['multi-context:member-order=%r' % (combo,)] = outcome(st, parent, vars_)
+        rec.count('history.multi_context_orders')
+    rec.count('families')
+    rec.count('history.families')
+    rec.count('shape.' + shape)
+    rec.count('resolutions', len(variants) + 1)
+    rec.case((label, text, 'history'), nontrivial=sum(len(layer) for layer in layers) >= 2)
+    bad = {k: v for k, v in variants.items() if v != base}
+    if bad:
+        kinds = sorted({k.split(':')[0] for k in bad})
+        rec.violation('resolution-history-dependent:%s' % '+'.join(kinds),
+                      'call %s against layers %s gives %s when every overload is registered at creation, but %s' % (
+                          text, [[o.tag for o in layer] for layer in layers], base, dict(list(bad.items())[:3])),
+                      {'kind': 'history', 'layers': [[o.desc() for o in layer] for layer in layers], 'call': call, 'shape': shape})
+    return variants
+
+
 def spec_from_desc(d):
     params = [fam.ParamSpec(p['name'], p['type'], p['nullable'], p.get('default'), 'default' in p, p.get('lazy', False),
                             p.get('hidden'), p['kind']) for p in d['params']]
@@ -225,6 +302,8 @@ def spec_from_desc(d):
 def plan(tier, seed):
     thorough = tier == 'thorough'
     shards = [{'name': 'perm-%d' % p, 'kind': 'perm', 'count': 3200 if thorough else 100} for p in range(16)]
+    for p in range(8 if thorough else 2):
+        shards.append({'name': 'history-%d' % p, 'kind': 'history', 'count': 2500 if thorough else 150})
     for p in range(16 if thorough else 2):
         shards.append({'name': 'fresh-%d' % p, 'kind': 'fresh', 'count': 500 if thorough else 60,
                        'env': {'PYTHONHASHSEED': str(p + 1)}})
@@ -250,6 +329,10 @@ def run_shard(spec, rec):
                 if i % 40 == 0 and outs is not None:
                     rec.sample({'shape': shape, 'call': render_call(call)[0],
                                 'family': [[o.desc() for o in layer] for layer in layers][0][:3], 'outcomes': sorted(outs)})
+        elif spec['kind'] == 'history':
+            for i in range(spec['count']):
+                layers, call, shape = gen_family(rng, 'two-layers' if i % 2 else None)
+                check_history(mon, layers, call, shape, rec, '%s/%d' % (spec['name'], i))
         else:
             _fresh(spec, mon, rec, rng)
     finally:
@@ -291,6 +374,10 @@ def replay(data, rec):
     mon = make_mon(rec, rng)
     try:
         layers = [[spec_from_desc(d) for d in layer] for layer in data['layers']]
+        if data.get('kind') == 'history':
+            for _ in range(5):
+                print(check_history(mon, layers, data['call'], data.get('shape', 'replay'), rec, 'replay'))
+            return
         outs = check_family(mon, layers, data['call'], data.get('shape', 'replay'), rec, 'replay')
         print('call %s -> outcomes by permutation: %r' % (render_call(data['call'])[0], outs))
     finally:
